@@ -8,6 +8,9 @@
 //	    the working directory (canary) are checked too;
 //	(2) lexer.go  - an independent POSIX quoting model must read one word, value s, and meet no
 //	    active expansion trigger.
+//
+// Besides, the results of a whole batch are kept as returned and must still read the same after
+// the later calls of the batch and after the shells ran (class "result-mutated").
 package main
 
 import (
@@ -32,7 +35,7 @@ const (
 // Case is one replayable observation: the inputs of one glb function, judged by one oracle.
 type Case struct {
 	Fn     string    `json:"fn"`
-	Oracle string    `json:"oracle"`        // "lexer" | "shell" | "call"
+	Oracle string    `json:"oracle"`        // "lexer" | "shell" | "call" | "result-mutated"
 	Cfg    *shellCfg `json:"cfg,omitempty"` // oracle "shell": the configuration
 	InHex  []string  `json:"in_hex"`        // the inputs, hex (they may be invalid UTF-8)
 	InQ    []string  `json:"in_quoted"`     // the same, Go-quoted, for the reader only
@@ -77,7 +80,7 @@ func caseKey(fn, oracle string, ins []string) string {
 		k = fmt.Sprintf("%s…#%016x", strconv.QuoteToASCII(s[:32]), drv.HashStr(s))
 	}
 	k = strings.ReplaceAll(k, " ", `\x20`) // keys are matched as one token in known_findings.txt
-	if len(ins) > 1 {
+	if len(ins) > 1 && oracle != oracleMutated {
 		k += fmt.Sprintf("+%d", len(ins)-1)
 	}
 	return fn + ":" + oracle + ":" + k
@@ -118,15 +121,83 @@ func describeExpected(fn string, ins []string, cfg *shellCfg) string {
 	return fmt.Sprintf("%s on %d inputs (first %s): %s", fn, len(ins), clipq(ins[0]), what)
 }
 
+const oracleMutated = "result-mutated"
+
+// retained holds the results of a sequence of calls the way a caller building a command line
+// holds them: the strings exactly as returned (kept[i]) next to a private copy taken the moment
+// the call returned (snap[i], strings.Clone). The property speaks about the text that reaches
+// the shell; a result whose bytes change while later calls happen is no longer one word equal
+// to s, however right it was when it was returned.
+type retained struct {
+	fn   string
+	ins  []string
+	kept []string
+	snap []string
+}
+
+// firstMutated compares every kept result with its snapshot (no glb call involved).
+func (rt *retained) firstMutated() int {
+	for i := range rt.kept {
+		if rt.kept[i] != rt.snap[i] {
+			return i
+		}
+	}
+	return -1
+}
+
+// check returns the index of the first result that (a) no longer reads as it did when it was
+// returned, or (b) differs from what a fresh call returns for the same input, else -1.
+// The kept strings are compared before any fresh call (a fresh call may itself overwrite
+// them) and once more afterwards.
+func (rt *retained) check() (idx int, observed string) {
+	describe := func(i int, when string) (int, string) {
+		return i, fmt.Sprintf("%s(%s) returned %s; the same string value reads %s %s", rt.fn, clipq(rt.ins[i]), clipq(rt.snap[i]), clipq(rt.kept[i]), when)
+	}
+	if i := rt.firstMutated(); i >= 0 {
+		return describe(i, fmt.Sprintf("after the %d later calls of the batch", len(rt.ins)-1-i))
+	}
+	for i, s := range rt.ins {
+		f, p := callEscape(rt.fn, s)
+		f = strings.Clone(f)
+		if p != "" {
+			continue // reported by the call oracle
+		}
+		if j := rt.firstMutated(); j >= 0 {
+			return describe(j, fmt.Sprintf("after calling %s(%s) once more", rt.fn, clipq(s)))
+		}
+		if f != rt.snap[i] {
+			return i, fmt.Sprintf("%s(%s) returned %s in the batch and %s when called again", rt.fn, clipq(s), clipq(rt.snap[i]), clipq(f))
+		}
+	}
+	return -1, ""
+}
+
 // runCase executes one case. env may be nil unless the oracle is "shell".
 // key == "" means the property held on this case.
 func runCase(cs Case, env *shellEnv) (key, expected, observed string, inconclusive bool) {
+	tries := 1
+	if cs.Oracle == oracleMutated {
+		// whether a later call reuses the memory of an earlier result can depend on the
+		// scheduler (per-P caches); such a case is repeated, any hit is a hit
+		tries = 25
+	}
+	for t := 0; t < tries; t++ {
+		key, expected, observed, inconclusive = runCaseOnce(cs, env)
+		if key != "" || inconclusive {
+			break
+		}
+	}
+	return
+}
+
+func runCaseOnce(cs Case, env *shellEnv) (key, expected, observed string, inconclusive bool) {
 	ins, err := cs.inputs()
 	if err != nil {
 		return "", "", "cannot decode case: " + err.Error(), true
 	}
 	tilde := cs.Fn == fnTilde
-	escs := make([]string, len(ins))
+	escs := make([]string, len(ins))  // the results as returned (what a caller hands to the shell)
+	snaps := make([]string, len(ins)) // copies taken when each call returned
 	for i, s := range ins {
 		if strings.IndexByte(s, 0) >= 0 {
 			return "", "", "input contains NUL (outside the property)", true
@@ -135,14 +206,21 @@ func runCase(cs Case, env *shellEnv) (key, expected, observed string, inconclusi
 		if p != "" {
 			return caseKey(cs.Fn, "call", ins[i:i+1]), cs.Fn + " returns", p, false
 		}
-		escs[i] = e
+		escs[i], snaps[i] = e, strings.Clone(e)
 	}
 	switch cs.Oracle {
+	case oracleMutated:
+		rt := &retained{fn: cs.Fn, ins: ins, kept: escs, snap: snaps}
+		if i, o := rt.check(); i >= 0 {
+			return caseKey(cs.Fn, oracleMutated, ins[i:i+1]),
+				fmt.Sprintf("the string returned by %s(%s) keeps its value while %d further calls are made (it is the text later handed to the shell)", cs.Fn, clipq(ins[i]), len(ins)-1),
+				o, false
+		}
 	case "lexer":
 		for i, s := range ins {
-			if j := judgeLex(s, escs[i], tilde); j != "" {
+			if j := judgeLex(s, snaps[i], tilde); j != "" {
 				return caseKey(cs.Fn, "lexer", ins[i:i+1]), describeExpected(cs.Fn, ins[i:i+1], nil),
-					fmt.Sprintf("output %s read by the POSIX quoting model: %s", clipq(escs[i]), j), false
+					fmt.Sprintf("output %s read by the POSIX quoting model: %s", clipq(snaps[i]), j), false
 			}
 		}
 	case "shell":
@@ -172,7 +250,7 @@ type mon struct{}
 func (mon) Name() string { return "shellesc" }
 
 func (mon) Level(string) (string, string) {
-	return "exploration", "inputs = (a) every string of length <= 4 (quick) / <= 5 (thorough) over the 15-character alphabet {' \" \\ $ ` space newline ; & | * ~ ! # a}, plus \"~/\"+w for every such w (the alphabet has no '/'); (b) a fixed hostile corpus (command substitutions, separators, redirections, globs, tilde forms, every single byte in quoting contexts, arguments up to 100 kB; many try to create a canary file); (c) seeded random NUL-free byte strings of length <= 64 (2*10^4 quick / 10^6 thorough; 40% uniform bytes, 60% weighted towards shell-special bytes, 15% with a leading ~/ or ~). Every input goes through ShellEscape and ShellEscapeExceptTilde and both outputs are judged by the POSIX quoting model; (a), (b) and - in both tiers - all of (c) are also executed by dash, bash and bash --posix under LC_ALL=C and C.UTF-8 (ExceptTilde: HOME=/vhome/plain and HOME='/vhome/sp ace'), 500 words per command line, comparing the NUL-separated argv received by an external program, stderr, exit status and the directory content. distinct_nontrivial = distinct inputs containing at least one byte outside [A-Za-z0-9_./-]."
+	return "exploration", "inputs = (a) every string of length <= 4 (quick) / <= 5 (thorough) over the 15-character alphabet {' \" \\ $ ` space newline ; & | * ~ ! # a}, plus \"~/\"+w for every such w (the alphabet has no '/'); (b) a fixed hostile corpus (command substitutions, separators, redirections, globs, tilde forms, every single byte in quoting contexts, arguments up to 100 kB; many try to create a canary file); (c) seeded random NUL-free byte strings of length <= 64 (2*10^4 quick / 10^6 thorough; 40% uniform bytes, 60% weighted towards shell-special bytes, 15% with a leading ~/ or ~). Every input goes through ShellEscape and ShellEscapeExceptTilde and both outputs are judged by the POSIX quoting model; (a), (b) and - in both tiers - all of (c) are also executed by dash, bash and bash --posix under LC_ALL=C and C.UTF-8 (ExceptTilde: HOME=/vhome/plain and HOME='/vhome/sp ace'), 500 words per command line, comparing the NUL-separated argv received by an external program, stderr, exit status and the directory content. The results of a batch (2500 inputs) are kept exactly as returned while the rest of the batch is escaped and it is these kept strings that go into the shell scripts; after the batch and again after the shells ran, every kept string is compared with a copy taken when it was returned and with the result of a fresh call (a result that changes while later calls happen is reported as result-mutated). distinct_nontrivial = distinct inputs containing at least one byte outside [A-Za-z0-9_./-]."
 }
 
 func (mon) Assumptions(string) []string {
@@ -252,9 +330,43 @@ func (r *runner) violate(cs Case) {
 		r.reported[cs.Oracle]++
 		r.c.Add("violations_seen_by_"+cs.Oracle, 1)
 	}
-	if !r.open("lexer") && !r.open("shell") || !r.open("call") {
+	if !r.open("lexer") && !r.open("shell") || !r.open("call") || !r.open(oracleMutated) {
 		r.stop = true
 	}
+}
+
+// checkRetained compares the kept results of a batch with their snapshots and with fresh calls.
+// A changed result is reported as a violation of its own class; the case is cut down to the
+// victim plus the later call(s) that overwrite it. Returns true when something had changed.
+func (r *runner) checkRetained(rt *retained) bool {
+	r.c.Add("retained_results_compared", int64(len(rt.kept)))
+	i, _ := rt.check()
+	if i < 0 {
+		return false
+	}
+	if !r.open(oracleMutated) {
+		return true
+	}
+	victim := rt.ins[i]
+	reproduces := func(seq []string) bool {
+		k, _, _, _ := runCase(mkCase(rt.fn, oracleMutated, nil, seq), nil)
+		return k == caseKey(rt.fn, oracleMutated, []string{victim})
+	}
+	seq := []string{victim} // a fresh call of the same input may already overwrite it
+	if !reproduces(seq) {
+		seq = nil
+		for j := i + 1; j < len(rt.ins) && j <= i+400; j++ {
+			if reproduces([]string{victim, rt.ins[j]}) {
+				seq = []string{victim, rt.ins[j]}
+				break
+			}
+		}
+	}
+	if seq == nil {
+		seq = append([]string(nil), rt.ins[i:]...) // the rest of the batch as it was
+	}
+	r.violate(mkCase(rt.fn, oracleMutated, nil, seq))
+	return true
 }
 
 // process sends one chunk of inputs through both functions and both oracles.
@@ -263,7 +375,8 @@ func (r *runner) process(label string, ins []string, nShell int) {
 	c := r.c
 	for _, fn := range []string{fnPlain, fnTilde} {
 		tilde := fn == fnTilde
-		escs := make([]string, len(ins))
+		escs := make([]string, len(ins))  // kept exactly as returned
+		snaps := make([]string, len(ins)) // strings.Clone at the moment of return
 		ok := make([]bool, len(ins))
 		for i, s := range ins {
 			e, p := callEscape(fn, s)
@@ -275,8 +388,8 @@ func (r *runner) process(label string, ins []string, nShell int) {
 				}
 				continue
 			}
-			escs[i], ok[i] = e, true
-			if j := judgeLex(s, e, tilde); j != "" && r.open("lexer") {
+			escs[i], snaps[i], ok[i] = e, strings.Clone(e), true
+			if j := judgeLex(s, snaps[i], tilde); j != "" && r.open("lexer") {
 				r.violate(mkCase(fn, "lexer", nil, []string{s}))
 				if r.stop {
 					return
@@ -287,6 +400,19 @@ func (r *runner) process(label string, ins []string, nShell int) {
 			}
 		}
 		c.Add("lexer_judgements", int64(len(ins)))
+		// the results were all kept while the rest of the batch was escaped: do they still read
+		// as they did when they were returned, and as a fresh call returns them?
+		rt := &retained{fn: fn, ins: ins, kept: escs, snap: snaps}
+		mutated := r.checkRetained(rt)
+		if r.stop {
+			return
+		}
+		shellText := escs // the shells get the kept strings, as a caller would pass them on
+		if mutated {
+			// already reported; let the shells judge the texts as they were returned, so that
+			// their verdict is about the quoting and not about the same overwrite again
+			shellText = snaps
+		}
 		if nShell > len(ins) {
 			nShell = len(ins)
 		}
@@ -308,7 +434,7 @@ func (r *runner) process(label string, ins []string, nShell int) {
 				if w != ins[i] {
 					expansions++
 				}
-				items = append(items, item{in: ins[i], esc: escs[i], want: w})
+				items = append(items, item{in: ins[i], esc: shellText[i], want: w})
 			}
 			c.Progress(fmt.Sprintf("%s %s %s (%d words)", label, fn, cfg, len(items)), true)
 			o, inc := r.env.checkBatch(cfg, items)
@@ -321,15 +447,43 @@ func (r *runner) process(label string, ins []string, nShell int) {
 			c.Add("tilde_expansions_checked", expansions)
 			c.SetAdd("shell_configs", cfg.String())
 			if o != "" {
+				// a batch built from kept strings fails: first see whether the kept strings
+				// are still what the function returned (they are what the script was made of)
+				if !mutated && r.checkRetained(rt) {
+					mutated, shellText = true, snaps
+					if r.stop {
+						return
+					}
+					continue
+				}
 				min := r.env.minimize(cfg, items)
 				var w []string
 				for _, it := range min {
 					w = append(w, it.in)
 				}
-				r.violate(mkCase(fn, "shell", &cfg, w))
+				cs := mkCase(fn, "shell", &cfg, w)
+				if k, _, _, inc := runCase(cs, r.env); k == "" && !inc {
+					// batch fails, the minimised words pass on their own: the difference
+					// between the two is the text - kept in the batch, fresh in the case
+					if r.checkRetained(rt) {
+						mutated, shellText = true, snaps
+						if r.stop {
+							return
+						}
+						continue
+					}
+				}
+				r.violate(cs)
 				if r.stop {
 					return
 				}
+			}
+		}
+		// and once more after the shells ran
+		if !mutated {
+			r.checkRetained(rt)
+			if r.stop {
+				return
 			}
 		}
 	}
